@@ -209,3 +209,17 @@ def functor_position(x):
         site = key[1][3] if len(key[1]) > 3 else None
         return bool(site) and site[1] == 0          # first visit of the block holding the next() call
     return False
+
+
+SS_ELEM = "std::option::Option<std::rc::Rc<unifiable::Unifiable>>"
+
+
+def is_ss_lookup(term_json):
+    """A MIR call terminator that reads (or gives access to) the entry of a substitution set under a key:
+    `ss[i]` (Index / IndexMut on the vector or a slice of it) or `ss.get(i)` / `get_mut(i)`."""
+    c = term_json["callee"]
+    nm = c.get("resolved") or c.get("path") or ""
+    if not any(nm.endswith(x) for x in ("::index", "::index_mut", "::get", "::get_mut", "::get_unchecked")):
+        return False
+    pa = (c.get("path_args") or "").replace(" ", "")
+    return SS_ELEM in pa or "SubstitutionSet" in pa
